@@ -101,7 +101,10 @@ static void fixture(const char *p0, const char *p1, const char *enc1)
     "plc LINCOM 1 praw 2 0\nppoly POLYNOM praw 1 2\npconst CONST UINT8 3\npmult MULTIPLY praw praw\n"
     "/INCLUDE deep/format3\n");
   snprintf(fmt + 2000, sizeof fmt - 2000, "%s/pre/deep", DD); mkdir(fmt + 2000, 0777);
-  wfile("pre/deep/format3", "/PROTECT format\ndconst CONST UINT8 9\n", 37);
+  /* fragment 3 is unprotected by its own directive, fragment 4 (two levels below fragment 2) is format-protected */
+  wfile("pre/deep/format3", "/PROTECT none\ndconst CONST UINT8 9\n/INCLUDE deeper/format4\n", 59);
+  snprintf(fmt + 2000, sizeof fmt - 2000, "%s/pre/deep/deeper", DD); mkdir(fmt + 2000, 0777);
+  wfile("pre/deep/deeper/format4", "/PROTECT format\neconst CONST UINT8 8\n", 37);
   /* a fragment that is not included: defines fields, a metafield of raw, a /REFERENCE, then fails to parse */
   wfile("sub/badfrag", "newraw RAW UINT8 1\nraw/submeta CONST UINT8 1\n/REFERENCE newraw\nthis is bad\n", 75);
   wfile("pre/format2", fmt, strlen(fmt));
@@ -643,6 +646,7 @@ int main(int argc, char **argv)
       if (rel) { char *t = dec(c ? c : "~"); wfile(rel, t, strlen(t)); free(t); printf("WFILE %s\n", rel); }
       continue;
     }
+    if (!strcmp(cmd, "mkdir")) { char p[2600]; snprintf(p, sizeof p, "%s/%s", DD, rest ? rest : ""); printf("MKDIR %d\n", mkdir(p, 0777)); continue; }
     if (!strcmp(cmd, "rmfile")) { char p[2600]; snprintf(p, sizeof p, "%s/%s", DD, rest ? rest : ""); printf("RMFILE %d\n", unlink(p)); continue; }
     if (!strcmp(cmd, "reopen")) { if (D) gd_discard(D); do_open(rest ? rest : "RDWR"); printf("REOPEN %d\n", gd_error(D)); continue; }
     if (!strcmp(cmd, "close")) { int r = D ? gd_close(D) : -1; if (r == 0) D = NULL; printf("CLOSE %d\n", r); continue; }
